@@ -139,7 +139,8 @@ contract(T + 'DataLinkConnection.connect', 'C05',
                                        'self.peer == old(self.recv_queue[0].ssap)'),
                   ('post.announced', 'self.send_queue[0].name == "CONNECT" and self.send_queue[0].miu == self.recv_miu '
                                      'and self.send_queue[0].rw == self.recv_win'),
-                  ('post.state', 'self.state.value == 4')],
+                  ('post.state', 'self.state.value == 4'),
+                  ('post.buffer', 'self.recv_buf == self.recv_win')],
          raises={ERR: []})
 CONN = Obj(P + 'Connect', ptype=4, dsap=SAP(), ssap=SAP(), miu=Int(128, 2175), rw=Int(0, 15), sn=None)
 contract(T + 'DataLinkConnection.accept', 'C05',
@@ -152,7 +153,10 @@ contract(T + 'DataLinkConnection.accept', 'C05',
                   ('post.announced', 'self.send_queue[0].name == "CC" and self.send_queue[0].miu == result.recv_miu '
                                      'and self.send_queue[0].rw == result.recv_win'),
                   ('post.fresh', 'result.send_cnt == 0 and result.send_ack == 0 and result.recv_cnt == 0 and '
-                                 'result.recv_ack == 0 and result.recv_confs == 0 and result.state.value == 4')],
+                                 'result.recv_ack == 0 and result.recv_confs == 0 and result.state.value == 4'),
+                  # the accepted endpoint starts inside the representation invariant every other contract assumes
+                  # (in particular its receive buffer holds a full receive window)
+                  ('post.inv', 'dlc_inv(result) and len(result.recv_queue) == 0 and len(result.send_queue) == 0')],
          raises={ERR: []})
 
 # C06 rests on "the data link connection is a FIFO": its SNEP/handover contracts are proved over an assumed socket
